@@ -30,6 +30,7 @@ type Config struct {
 // Body is one loaded code body.
 type Body struct {
 	helperValMemo    map[interface{}]int
+	wrapDepth        int
 	initReachMemo    map[*ssa.Function]map[int]bool
 	Name             string // "v5" or "legacy"
 	Dir              string
